@@ -1,11 +1,19 @@
 #[cfg(test)]
 use portable_atomic::{AtomicBool, Ordering};
 use std::borrow::Cow;
+#[cfg(indicatif_verif)]
+use crate::verif_hooks::{thread, Condvar, Mutex, MutexGuard};
+#[cfg(not(indicatif_verif))]
 use std::sync::{Arc, Condvar, Mutex, MutexGuard, Weak};
+#[cfg(indicatif_verif)]
+use std::sync::{Arc, Weak};
 use std::time::Duration;
 #[cfg(not(target_arch = "wasm32"))]
 use std::time::Instant;
+#[cfg(not(indicatif_verif))]
 use std::{fmt, io, thread};
+#[cfg(indicatif_verif)]
+use std::{fmt, io};
 
 #[cfg(test)]
 use once_cell::sync::Lazy;
@@ -724,6 +732,8 @@ impl TickerControl {
             }
 
             state.tick(Instant::now());
+            #[cfg(indicatif_verif)]
+            crate::verif_hooks::mark("ticker_tick", 0);
 
             drop(state); // Don't forget to drop the lock before sleeping
             drop(arc); // Also need to drop Arc otherwise BarState won't be dropped
